@@ -148,8 +148,16 @@ def r4(p, rep):
                 rep.add("C07.R4", f"{f0.qualname}:implicit-output:pop()", f"{f.module.rel}:{node.lineno}", ok, f"`{coll}.pop()` only when len({coll}) == 1 (otherwise SemanticError)" if ok else f"the implicit output is popped from `{coll}` without a test that this very set has exactly one element: an ambiguous call (e.g. 'a b, b a') silently picks one input - which one depends on set order")
                 adds = [a for a in walk_no_nested(f.node) if isinstance(a, ast.Call) and norm(a.func) == f"{coll}.add"]
                 txt = " ".join(norm(x) for a in adds for x in [enclosing(a, ast.For)] if x is not None)
-                sub = "issubset" in txt or "<=" in txt
-                rep.add("C07.R4", f"{f0.qualname}:implicit-output:superset-rule", f"{f.module.rel}:{node.lineno}", bool(adds) and sub, "candidates are the inputs whose axis names contain those of all other inputs")
+                # the candidate set may also be built by a comprehension or by a helper function
+                for a in walk_no_nested(f.node):
+                    if isinstance(a, ast.Assign) and any(norm(t) == coll for t in a.targets):
+                        txt += " " + norm(a.value)
+                        if isinstance(a.value, ast.Call):
+                            r = resolve_callee(p, a.value, f.module)
+                            if r and r[0] == "func":
+                                txt += " " + " ".join(norm(st) for st in r[1].node.body)
+                sub = any(w in txt for w in ("issubset", "issuperset", "<=", ">="))
+                rep.add("C07.R4", f"{f0.qualname}:implicit-output:superset-rule", f"{f.module.rel}:{node.lineno}", sub, "candidates are the inputs whose axis names contain those of all other inputs" if sub else f"the candidates in `{coll}` are not selected by a subset test over the axis names of the other inputs")
     if n == 0:
         raise AnalysisError("unrecognised idiom: no `<set>.pop().__deepcopy__()` implicit output reachable from _parse_op")
 
@@ -203,6 +211,11 @@ def r6(p, rep):
         raise AnalysisError("unrecognised idiom: no `if keepdims:` rewrite in einx_from_namedtensor")
     for f, n in hits:
         body = " ".join(norm(s) for s in n.body)
+        # functions the branch refers to by name (the replacement callback may live at module level)
+        for x in [y for st in n.body for y in ast.walk(st) if isinstance(y, ast.Name)]:
+            for g in p.funcs.values():
+                if g.module is m and g.name == x.id and (g.parent is None or g.parent is f):
+                    body += " " + " ".join(norm(st) for st in g.node.body)
         ok = "FlattenedAxis" in body and "Brackets" in body
         rep.add("C07.R6", f"{f.qualname}:keepdims-rewrite", f"{m.rel}:{n.lineno}", ok, "keepdims=True wraps each bracket into a flattened axis `([...])`" if ok else f"keepdims branch does `{body[:80]}`")
 
